@@ -174,8 +174,19 @@ func (p *WorkerPool) SubmitWait(execute func() interface{}) (interface{}, bool) 
 	return result, ok
 }
 
-// Stop shuts down the worker pool gracefully
+// Stop shuts down the worker pool gracefully.
+// Tasks that are still queued when the workers have gone are not run: their result
+// channel is closed, so SubmitWait returns ok=false and the caller can run the task itself.
 func (p *WorkerPool) Stop() {
+	// Stop and Resize exclude each other (Resize stops and restarts the pool itself)
+	p.resizeMu.Lock()
+	defer p.resizeMu.Unlock()
+	p.stop(true)
+}
+
+// stop implements Stop; the caller holds resizeMu. Resize passes drain=false because it
+// re-enqueues the pending tasks itself.
+func (p *WorkerPool) stop(drain bool) {
 	// Use atomic to ensure we only stop once
 	if !atomic.CompareAndSwapInt32(&p.running, 1, 0) {
 		vhook("wp.stop.noop")
@@ -188,6 +199,7 @@ func (p *WorkerPool) Stop() {
 	vhook("wp.stop.cancelled")
 
 	// Close the task queue under closeMu so that no Submit is mid-send.
+	queue := p.taskQueue
 	p.closeMu.Lock()
 	func() {
 		defer func() {
@@ -195,7 +207,7 @@ func (p *WorkerPool) Stop() {
 				// Channel was already closed, ignore the panic
 			}
 		}()
-		close(p.taskQueue)
+		close(queue)
 	}()
 	vhook("wp.stop.closed")
 	p.closeMu.Unlock()
@@ -203,6 +215,16 @@ func (p *WorkerPool) Stop() {
 	// Wait for all workers to finish
 	p.wg.Wait()
 	vhook("wp.stop.waited")
+
+	// No worker is left: tell the submitters of the tasks still queued that they will not run
+	if drain {
+		for task := range queue {
+			if task.ResultChan != nil {
+				close(task.ResultChan)
+			}
+			vhook("wp.stop.drain", "rc", task.ResultChan)
+		}
+	}
 
 	p.logger.logger.Printf("Worker pool stopped")
 }
@@ -245,7 +267,7 @@ func (p *WorkerPool) Resize(maxWorkers int) {
 	// Stop the pool if it's running
 	// This will close the old queue and wait for all workers to finish
 	if wasRunning {
-		p.Stop()
+		p.stop(false)
 	}
 
 	// Drain remaining tasks from old queue and notify callers.
@@ -289,7 +311,7 @@ func (p *WorkerPool) Resize(maxWorkers int) {
 			default:
 				// Queue full, notify caller of failure
 				if task.ResultChan != nil {
-					task.ResultChan <- nil
+					close(task.ResultChan)
 				}
 				vhook("wp.rs.fail", "rc", task.ResultChan, "why", "full")
 			}
@@ -298,7 +320,7 @@ func (p *WorkerPool) Resize(maxWorkers int) {
 		// Pool wasn't running, notify callers of dropped tasks
 		for _, task := range pendingTasks {
 			if task.ResultChan != nil {
-				task.ResultChan <- nil
+				close(task.ResultChan)
 			}
 			vhook("wp.rs.fail", "rc", task.ResultChan, "why", "stopped")
 		}
